@@ -5,7 +5,7 @@
    pointer (A += n): the loop lemmas carry the pointer as a function of the counter.  For EVERY NumOps instance (through `adapt`),
    EVERY order n that is an a_uint value (U32) and every array of any length (too short: None on both sides):
      tie_a_real_ldl_det / ldl_lndet / llt_det / llt_lndet / plu_det / plu_lndet  generated = model
-   (plu_det for a non-negative `sign` argument: c2arr does not represent negative integers). *)
+   (the `int sign` argument of plu_det is carried in Z: either sign, any int value). *)
 From Coq Require Import ZArith NArith List Bool Arith Lia.
 From LibaV Require Import C09.LinalgSpec C09.LinalgLemmas C09.LoopTieLemmas C08.LoopTieLemmas.
 From Gen Require Import GenLoop TieLoopBase.
@@ -74,10 +74,10 @@ Section Tie.
     gen_a_real_plu_det_loop1 O fg n A lo r (n * lo) =
     omap (fun r => r) (M.for_range lo n (fun i r => match M.rd A (n * i + i) with Some a => Some (M.mul A_ r a) | None => None end) r).
   Proof. diag_loop (@gen_a_real_plu_det_loop1). Qed.
-  Theorem tie_a_real_plu_det : forall (n : nat) (A : list T) (sign : nat), U32 n -> gen_a_real_plu_det O n A 0 sign = F.plu_det A_ n A (Z.of_nat sign).
+  Theorem tie_a_real_plu_det : forall (n : nat) (A : list T) (sign : Z), U32 n -> gen_a_real_plu_det O n A 0 sign = F.plu_det A_ n A sign.
   Proof.
     intros n A sign Hn. unfold gen_a_real_plu_det, F.plu_det. cbv zeta.
-    pose proof (plu_det_l1 n A Hn (S n) 0 (G.ofZ O (Z.of_nat sign)) ltac:(lia)) as H. rewrite Nat.mul_0_r in H. rewrite H.
+    pose proof (plu_det_l1 n A Hn (S n) 0 (G.ofZ O sign) ltac:(lia)) as H. rewrite Nat.mul_0_r in H. rewrite H.
     cbn [M.zero M.one M.ofZ M.mul adapt]. destruct (M.for_range 0 n _ _); reflexivity.
   Qed.
 
